@@ -35,6 +35,7 @@ type FuncContract struct {
 	ModClauses []*Clause
 	PNames   []string
 	RNames   []string
+	AtCalls  []AtCall
 	ModAll   bool             // modifies *
 	Loops    map[int][]*Clause // loop ordinal -> invariants
 	LoopMods map[int][]string  // loop ordinal -> extra havoc hints (unused mostly)
@@ -64,6 +65,11 @@ type PkgContracts struct {
 	Shared   []string      // "T.f mode"
 	LockInvs []LockInvDecl // monitor invariants over self
 	PoolInvs []LockInvDecl // sync.Pool invariants over (x, self)
+}
+
+type AtCall struct {
+	Callee string
+	Clause *Clause
 }
 
 type LockInvDecl struct {
@@ -198,6 +204,18 @@ func parseContractFile(path string, pkgPath string, pc *PkgContracts) error {
 			default:
 				return fmt.Errorf("%s:%d: bad loop clause %q", path, i+1, kind)
 			}
+		case "atcall":
+			// atcall <callee name> requires <clause>: obligation at every call of that callee inside this function
+			if cur == nil {
+				return fmt.Errorf("%s:%d: atcall outside func block", path, i+1)
+			}
+			callee, r2 := splitWord(rest)
+			kw, r3 := splitWord(r2)
+			if kw != "requires" {
+				return fmt.Errorf("%s:%d: atcall needs 'requires'", path, i+1)
+			}
+			c := mkClause("atcall", r3, path, i+1, counts)
+			cur.AtCalls = append(cur.AtCalls, AtCall{Callee: callee, Clause: c})
 		case "flag":
 			if cur == nil {
 				return fmt.Errorf("%s:%d: flag outside func block", path, i+1)
